@@ -54,6 +54,9 @@ for _n in ("N1", "N2", "N8", "N5"):
     ITEMS[_n + "x3"] = (f"{_n}[3]", NESTED[_n][1], NESTED[_n][2], 3)
     ITEMS[_n + "x2"] = (f"{_n}[2]", NESTED[_n][1], NESTED[_n][2], 2)
 
+# the unsized native spellings (fixed widths in RTMA whatever the C compiler's own idea of `long` is)
+ITEMS.update({"L4": ("long", 4, 4, None), "UL4x2": ("unsigned long[2]", 4, 4, 2), "S2": ("short", 2, 2, None), "I4": ("int", 4, 4, None),
+              "LL8": ("long long", 8, 8, None), "US2x3": ("unsigned short[3]", 2, 2, 3)})
 FULL = list(ITEMS)
 SMALL = ["c1", "i2", "i4", "f8", "c1x3", "N1", "N2", "N8", "i2x3", "N5x3", "RN2", "RN1", "M4", "M2"]
 
@@ -272,6 +275,67 @@ def size_boundaries(_=None) -> Dict[str, Any]:
     return {"problems": problems, "stats": {"size_cases": n}}
 
 
+def renamed_layouts(_=None) -> Dict[str, Any]:
+    """(e) one process compiles a series of programs in which the SAME type name stands for structs of alignment 1, 2, 4, 8 in
+    every order: a layout decision remembered by type name from an earlier compilation shows up as a wrong verdict / layout"""
+    from pyrtma.parser import ParserError
+
+    variants = {1: ({"c": "char[3]"}, 3), 2: ({"a": "int16", "b": "char[2]"}, 4), 4: ({"a": "int32", "b": "int16", "p": "char[2]"}, 8), 8: ({"d": "double"}, 8)}
+    problems = []
+    n = 0
+    d = core.scratch_dir("c11r")
+    try:
+        for order in itertools.permutations((1, 2, 4, 8)):
+            for al in order:
+                vf, vs = variants[al]
+                # W: int32, NV, int32 ; W2: char, NV[2] ; W3: NV, char   (natural layout computed from the variant at hand)
+                layouts = {}
+                for name, fields in (("W", [("a", 4, 4), ("v", vs, al), ("n", 4, 4)]), ("W2", [("c", 1, 1), ("v", vs * 2, al)]), ("W3", [("v", vs, al), ("c", 1, 1)])):
+                    off, mx, pads = 0, 1, 0
+                    for _fn, sz, a in fields:
+                        if (-off) % a:
+                            pads += 1
+                            off += (-off) % a
+                        off += sz
+                        mx = max(mx, a)
+                    if (-off) % mx:
+                        pads += 1
+                        off += (-off) % mx
+                    layouts[name] = (off, pads)
+                files = {"root.yaml": {"struct_defs": {"NV": {"fields": dict(vf)}},
+                                       "message_defs": {"W": {"id": 4100, "fields": {"a": "int32", "v": "NV", "n": "int32"}},
+                                                        "W2": {"id": 4101, "fields": {"c": "char", "v": "NV[2]"}},
+                                                        "W3": {"id": 4102, "fields": {"v": "NV", "c": "char"}}}}}
+                root = defx.Program(files).write(d)
+                n += 1
+                try:
+                    p = defx.parse_model(root, import_coredefs=False)
+                    for name, (size, pads) in layouts.items():
+                        md = p.message_defs[name]
+                        npad = sum(1 for f in md.fields if f.name.startswith("padding_"))
+                        if md.size != size or npad != pads:
+                            problems.append({"kind": "layout-depends-on-earlier-compilation", "order": list(order), "NV_alignment": al, "message": name,
+                                             "size": md.size, "want_size": size, "pads": npad, "want_pads": pads})
+                except Exception as e:
+                    problems.append({"kind": "layout-depends-on-earlier-compilation", "order": list(order), "NV_alignment": al, "verdict": type(e).__name__})
+                # auto_pad off: accepted exactly when no padding is needed
+                for name, (size, pads) in layouts.items():
+                    one = {"root.yaml": {"struct_defs": {"NV": {"fields": dict(vf)}}, "message_defs": {name: files["root.yaml"]["message_defs"][name]}}}
+                    root = defx.Program(one).write(d)
+                    n += 1
+                    try:
+                        defx.parse_model(root, import_coredefs=False, auto_pad=False)
+                        verdict = "accepted"
+                    except Exception as e:
+                        verdict = type(e).__name__
+                    if (verdict == "accepted") != (pads == 0):
+                        problems.append({"kind": "auto_pad-off-verdict-depends-on-earlier-compilation", "order": list(order), "NV_alignment": al, "message": name,
+                                         "verdict": verdict, "needs_padding": pads > 0})
+    finally:
+        core.rmtree(d)
+    return {"problems": problems, "stats": {"renamed_cases": n}}
+
+
 def cli_options(_=None) -> Dict[str, Any]:
     """compiler_options written in the definition file must reach the parser when the command line entry point is used"""
     import contextlib
@@ -340,6 +404,7 @@ def run(tier: str) -> int:
     res = core.pmap(check_batch, batches)
     res.append(size_boundaries())
     res.append(cli_options())
+    res.append(renamed_layouts())
     core.close_pool()
     totals: Dict[str, int] = {}
     for r in res:
@@ -351,13 +416,15 @@ def run(tier: str) -> int:
     chk.sample({"sequence": list(seqs[0]), "fields": fields_of(seqs[0]), "reference": reference_layout(seqs[0])})
     chk.sample({"sequence": list(seqs[-1]), "fields": fields_of(seqs[-1]), "reference": reference_layout(seqs[-1])})
     chk.assumptions += ["gcc (x86-64 SysV) layout is the ground truth for C", "ctypes layout for Python", "import_coredefs off (layout code is independent of the core definitions)"]
-    return chk.finish({"evaluations": totals.get("cases", 0) * 2 + totals.get("size_cases", 0), "distinct_nontrivial": totals.get("padded", 0)})
+    return chk.finish({"evaluations": totals.get("cases", 0) * 2 + totals.get("size_cases", 0) + totals.get("renamed_cases", 0), "distinct_nontrivial": totals.get("padded", 0)})
 
 
 def replay(case) -> int:
     p = case["problem"]
     if p.get("kind") == "cli-option-ignored":
         r = cli_options()
+    elif "earlier-compilation" in p.get("kind", ""):
+        r = renamed_layouts()
     elif "seq" not in p:
         r = size_boundaries()
     else:
